@@ -51,13 +51,15 @@ CLAIMS = {
  'C18': dict(cat='proof', ref='DESIGN.md section 4, C18',
    text='size-class selection proved complete; per-class list operations as bounded stand-ins (N blocks); alloc/dealloc/clear proved on top: a handed-out block has at least the requested size and was not in use, an unknown release sets the warning flag and changes no list, every block is freed exactly once on clear.',
    note='lists bounded (N in the evidence); allocator by base contract; no-aliasing over all histories is the induction on the representation invariant'),
+ 'C10': dict(cat='other', ref='DESIGN.md section 9.7 (C10 as built)',
+   text='PARTIAL claim (the sequential, per-call part of the property): each of the eleven threadsafe_* wrappers is proved to take the detector\'s own mutex exactly once before touching the detector, to reach every detector operation with the mutex held, never to take it while held (non-recursive: the hang), to return with it released, and to ask the detector exactly what its single-threaded twin asks; turnOnThreadSafeNewDeleteOverloads is proved to install the wrapper in all eleven slots; a misuse report raised inside a wrapper is proved to release the mutex before its non-local exit and to release nothing when nobody holds it. Scope-exit destructor calls of the RAII lock are produced by emitter rule R17. The schedule-quantified part (no data race, linearisable accounting over all interleavings) is NOT decided by any obligation: it is an argument from the proved lock discipline plus POSIX mutex semantics.',
+   note='partial claim; trusted: POSIX mutex semantics, that all detector state is reached only through the eleven entry points in this mode, exception unwinding runs destructors; undecided clauses in contracts/C10.undecided.txt'),
  'C20': dict(cat='other', ref='DESIGN.md section 4, C20',
    text='PARTIAL claim: printEscaped proved to emit exactly one correct chunk per input byte for strings of any length, plus the decoding lemma; balance of suite/test messages is the C02 registry loop (bounded); that every writer passes every value through printEscaped is undecided.',
    note='partial claim; undecided clauses in contracts/C20.undecided.txt'),
 }
 NOT_APPLICABLE = {
  'C08': 'verdict exactness over all mock call histories: the mock engine is C++ object graphs with value-semantics temporaries and destructor-held ownership; CBMC cannot parse it, the C lowering stops at destructors, and no per-function contract implies the history-level iff',
- 'C10': 'a property of thread schedules; CBMC contract instrumentation is sequential, the lock is an RAII destructor, and the lock-leak path is a longjmp, which CBMC does not model',
  'C16': 'well-formedness of the emitted XML is a grammar-membership property of printf-formatted text assembled from C++ string temporaries; no function contract states it and there is no XML judge in the verifier',
  'C19': 'a relational equivalence between two interfaces over all scenarios, both built on the C08 mock engine that is out of reach',
 }
